@@ -490,7 +490,7 @@ def make_spec(pid, title_rule):
         if rec.get("checker") != "flow":
             return True
         code = (rec.get("expected") or [0])[0]
-        if pid == "C11" and code in (101, 102, 103, 123):
+        if pid == "C11" and code in (101, 102, 103, 122, 123, 124, 126):
             # "still tracked with its safe / unsafe / trusted flags": a wrong safe report AFTER a restart is C11's
             # (before any restart it is C05 / C07's)
             ops, st = rec.get("ops", []), rec.get("step", 0)
